@@ -21,6 +21,40 @@ const prelude = `(define-fun goquo ((a Int) (b Int)) Int (ite (>= a 0) (ite (> b
 `
 
 var tokenRe = regexp.MustCompile(`[^\s()]+`)
+
+var tokCache sync.Map // term text -> []string of distinct tokens
+
+// tokensOf returns the distinct symbols of an s-expression (memoised: hypotheses are shared by
+// the many obligations generated along one path).
+func tokensOf(s string) []string {
+	if v, ok := tokCache.Load(s); ok {
+		return v.([]string)
+	}
+	seen := map[string]bool{}
+	var out []string
+	i := 0
+	for i < len(s) {
+		c := s[i]
+		if c == ' ' || c == '(' || c == ')' || c == '\n' || c == '\t' {
+			i++
+			continue
+		}
+		j := i
+		for j < len(s) && s[j] != ' ' && s[j] != '(' && s[j] != ')' && s[j] != '\n' && s[j] != '\t' {
+			j++
+		}
+		t := s[i:j]
+		if !seen[t] {
+			seen[t] = true
+			out = append(out, t)
+		}
+		i = j
+	}
+	if len(s) > 64 {
+		tokCache.Store(s, out)
+	}
+	return out
+}
 var sortRe = regexp.MustCompile(`\b(E_[A-Za-z0-9]+|Str)\b`)
 
 // BuildQuery renders the obligation as an SMT-LIB script (without check-sat/get-model tail).
@@ -36,11 +70,14 @@ func (o *Obligation) BuildQuery() string {
 	body := strings.Join(asserts, "\n") + "\n" + goal
 	used := map[string]bool{}
 	addTokens := func(s string) {
-		for _, t := range tokenRe.FindAllString(s, -1) {
+		for _, t := range tokensOf(s) {
 			used[t] = true
 		}
 	}
-	addTokens(body)
+	for _, a := range asserts {
+		addTokens(a)
+	}
+	addTokens(goal)
 	// closure over define-fun-rec bodies
 	for changed := true; changed; {
 		changed = false
@@ -132,11 +169,12 @@ func (o *Obligation) BuildQuery() string {
 	return sb.String()
 }
 
+var declRe = regexp.MustCompile(`\((?:declare-fun|declare-sort|define-fun-rec|define-fun) ([^\s()]+)`)
+
 // canonical renames declared symbols by order of appearance so that structurally identical
 // queries (e.g. the same kernel template at different element types) share one solver run.
 func canonical(q string) string {
 	names := map[string]string{}
-	declRe := regexp.MustCompile(`\((?:declare-fun|declare-sort|define-fun-rec|define-fun) ([^\s()]+)`)
 	for _, m := range declRe.FindAllStringSubmatch(q, -1) {
 		if m[1] == "goquo" || m[1] == "gorem" || m[1] == "idx" {
 			continue
@@ -145,12 +183,29 @@ func canonical(q string) string {
 			names[m[1]] = fmt.Sprintf("c%d", len(names))
 		}
 	}
-	return tokenRe.ReplaceAllStringFunc(q, func(t string) string {
-		if n, ok := names[t]; ok {
-			return n
+	var sb strings.Builder
+	sb.Grow(len(q))
+	i := 0
+	for i < len(q) {
+		c := q[i]
+		if c == ' ' || c == '(' || c == ')' || c == '\n' || c == '\t' {
+			sb.WriteByte(c)
+			i++
+			continue
 		}
-		return t
-	})
+		j := i
+		for j < len(q) && q[j] != ' ' && q[j] != '(' && q[j] != ')' && q[j] != '\n' && q[j] != '\t' {
+			j++
+		}
+		t := q[i:j]
+		if n, ok := names[t]; ok {
+			sb.WriteString(n)
+		} else {
+			sb.WriteString(t)
+		}
+		i = j
+	}
+	return sb.String()
 }
 
 type solverResult struct {
@@ -366,12 +421,22 @@ func (s *Solvers) solveBatch(queries []string, secs int, fallback bool) []solver
 	s.Total += len(queries)
 	const batchSize = 24
 	var batches [][]*uq
-	for i := 0; i < len(uniq); i += batchSize {
-		j := i + batchSize
-		if j > len(uniq) {
-			j = len(uniq)
+	// queries with recursive spec functions go to cvc5 first (it unfolds define-fun-rec over
+	// uninterpreted sorts at once where z3 runs into its timeout); the rest is batched on z3
+	var z3q []*uq
+	for _, u := range uniq {
+		if fallback && strings.Contains(u.text, "(define-fun-rec ") {
+			u.res = solverResult{Result: "unknown", Solver: "-"}
+			continue
 		}
-		batches = append(batches, uniq[i:j])
+		z3q = append(z3q, u)
+	}
+	for i := 0; i < len(z3q); i += batchSize {
+		j := i + batchSize
+		if j > len(z3q) {
+			j = len(z3q)
+		}
+		batches = append(batches, z3q[i:j])
 	}
 	var wg sync.WaitGroup
 	sem := make(chan struct{}, 16)
@@ -446,6 +511,20 @@ func (s *Solvers) solveBatch(queries []string, secs int, fallback bool) []solver
 			s.mu.Unlock()
 			os.WriteFile(file, []byte(text), 0o644)
 			defer os.Remove(file)
+			// product/division abstraction: congruence-only goals become linear
+			if aq, ok := abstractNonlinear(u.text); ok {
+				afile := file + ".uf.smt2"
+				os.WriteFile(afile, []byte("(set-logic ALL)\n"+aq+"(check-sat)\n"), 0o644)
+				r := s.runOne(0, afile)
+				os.Remove(afile)
+				if r.Result == "unsat" {
+					r.Solver = "z3-new(uf-products)"
+					r.Time += u.res.Time
+					u.res = r
+					return
+				}
+				u.res.Time += r.Time
+			}
 			for _, idx := range []int{1, 0, 2} {
 				r := s.runOne(idx, file)
 				if r.Result != "unknown" {
